@@ -144,7 +144,7 @@ func ruleStateOnlyForVerifiedFrames(c *Ctx, rule string) {
 }
 
 func checkC06(c *Ctx) {
-	c.Explanation = "Decides structural necessary conditions of the week bookkeeping: (S1) state persistence — on every call path from the single-frame decoder to a store into a Handler time field the Handler travels by pointer; no local copy of a Handler (value receiver / by-value parameter / dereferenced copy) has its address handed to a function that mutates Handler fields, so no rollover update is lost; (S2) constellation separation — each converter reads and writes only the Handler fields of its own constellation; (S3) the message-type dispatch tables of the time converter and of the start-of-week lookup map {1074,1077}->GPS, {1084,1087}->Glonass, {1094,1097}->Galileo, {1124,1127}->Beidou and agree with each other (complete type domain); (S4) no Handler state is written on a path that returns a range error; (S5) the week advances only under a strict comparison (previous > current; Glonass day < previous day) and by exactly AddDate(0,0,7); (S6) the offset and limit constants have the required values (-18 s, -4 s, -3 h, 7*86400000-1, 6<<27+86400000-1, day shift 27, 24 h limit with >=), range checks use the required operators, times are week start + timestamp milliseconds, and the start-of-week display is computed after the conversion."
+	c.Explanation = "Decides structural necessary conditions of the week bookkeeping: (S1) state persistence — on every call path from the single-frame decoder to a store into a Handler time field the Handler travels by pointer; no local copy of a Handler (value receiver / by-value parameter / dereferenced copy) has its address handed to a function that mutates Handler fields, so no rollover update is lost; (S2) constellation separation — each converter reads and writes only the Handler fields of its own constellation; (S3) the message-type dispatch tables of the time converter and of the start-of-week lookup map {1074,1077}->GPS, {1084,1087}->Glonass, {1094,1097}->Galileo, {1124,1127}->Beidou and agree with each other (complete type domain); (S4) no Handler state is written on a path that returns a range error; (S5) the week advances only under a strict comparison (previous > current; Glonass day < previous day) and by exactly AddDate(0,0,7); (S6) the offset and limit constants have the required values (-18 s, -4 s, -3 h, 7*86400000-1, 6<<27+86400000-1, day shift 27, 24 h limit with >=), range checks use the required operators, times are week start + timestamp milliseconds, and the start-of-week display is computed after the conversion. (S8) every successful conversion replaces the remembered timestamp (day) of its constellation, unconditionally."
 	c.NotDecided = "calendar arithmetic of time.Time; that the structural conditions are sufficient for every interleaving (numerical end-to-end equality is outside static analysis); the initial week derived from the start time (C17)."
 	P := c.P
 	H := P.Named("rtcm/handler", "Handler")
@@ -321,6 +321,51 @@ func checkC06(c *Ctx) {
 		})
 		c.Check(reads > 0 && writes > 0, "C06-S2", "uses-own-state("+k+")", fn.Pos(), fmt.Sprintf("%d reads and %d writes of %s state", reads, writes, k),
 			"the "+k+" converter does not both read and update its own week state")
+		// S8: the remembered timestamp (day) is replaced on every successful conversion: a guarded
+		// update (only when larger, only when changed by more than ...) leaves a stale value behind
+		// after a rollover, and every later message is then taken for another rollover
+		var prevStores []ssa.Instruction
+		eachInstr(fn, func(ins ssa.Instruction) {
+			st, ok := ins.(*ssa.Store)
+			if !ok {
+				return
+			}
+			fa, ok := st.Addr.(*ssa.FieldAddr)
+			if !ok {
+				return
+			}
+			f, _ := fieldOf(fa)
+			if f == nil || fieldConst(f) != k || !types.Identical(fa.X.Type().Underlying().(*types.Pointer).Elem(), H) {
+				return
+			}
+			if b, isB := f.Type().Underlying().(*types.Basic); isB && b.Info()&types.IsInteger != 0 {
+				prevStores = append(prevStores, ins)
+			}
+		})
+		if len(prevStores) == 0 || len(fn.Blocks) == 0 || len(fn.Blocks[0].Instrs) == 0 {
+			c.Fail("C06-S8", "previous-updated("+k+")", fn.Pos(), "unresolved", "no store into the remembered timestamp of "+k+" found")
+		} else {
+			isPrev := func(i ssa.Instruction) bool {
+				for _, s := range prevStores {
+					if s == i {
+						return true
+					}
+				}
+				return false
+			}
+			okReturn := func(i ssa.Instruction) bool {
+				r, ok := i.(*ssa.Return)
+				return ok && len(r.Results) >= 2 && isNilConst(r.Results[len(r.Results)-1])
+			}
+			first := fn.Blocks[0].Instrs[0]
+			if isPrev(first) {
+				c.OK("C06-S8", "previous-updated("+k+")", fn.Pos(), "the remembered timestamp is stored on every successful path")
+			} else if path, _ := mustPass(first, isPrev, okReturn, nil); path != nil {
+				c.Fail("C06-S8", "previous-updated("+k+")", fn.Pos(), "refuted", "the "+k+" converter can succeed without replacing the remembered timestamp: after a rollover the stale value makes every later message look like another rollover", P.blockPath(path)...)
+			} else {
+				c.OK("C06-S8", "previous-updated("+k+")", fn.Pos(), "the remembered timestamp is stored on every successful path")
+			}
+		}
 	}
 
 	// ---- S5 rollover comparison
@@ -358,6 +403,7 @@ func checkC06(c *Ctx) {
 	c.MinInstances("C06-S2", 16)
 	c.MinInstances("C06-S3", 13)
 	c.MinInstances("C06-S4", 7)
+	c.MinInstances("C06-S8", 4)
 	c.MinInstances("C06-S5", 5)
 	c.MinInstances("C06-S6", 12)
 }
